@@ -80,6 +80,8 @@ func vNewBackendFull(s *zzmodel.Store, base uint64, cache int, wrap func(tso.TSO
 	return b
 }
 
+func vCoder() coder.Coder { return coder.NewNormalCoder() }
+
 func vCtx() context.Context { return context.Background() }
 
 // VerifSmoke: create, wait for the sequencer, read back.
